@@ -116,7 +116,7 @@ def immtext(neg, mag, radix, digits=0):
     if radix == "hex":
         s = "0x" + ("%x" % v).rjust(digits, "0") if digits else "0x%x" % v
     else:
-        s = "%d" % v
+        s = ("%d" % v).rjust(digits, "0") if digits else "%d" % v     # digits: total number of decimal digits (leading zeros)
     return ("-" if neg else "") + s
 
 
